@@ -34,6 +34,10 @@ CHECKS = {
    technique="TLA+ contract Wire.tla (grammar + ReadOK over exact byte-sequence naturals): reference reader model-checked / wrapping reader refuted; TLC-enumerated streams fed to the real read_from; trace validated by TLC",
    text="Wire.tla holds the grammar of 11 serialisable types and the contract of read_from (Ok only for complete, overflow-free consistent, fitting streams; such streams must be accepted; Err leaves metadata unchanged; never a panic/abort; dimensions consistent with the buffer afterwards), over naturals represented as byte sequences so 2^61, 2^64-1 and overflowing products are exact. TLC model-checks a reference reader against it and refutes the wrapping reader, then enumerates every truncation point, every header field x boundary dictionary, the overflowing combinations and three receivers per type; the grammar-free harness applies the byte edits, runs the real read_from in a child process and logs header bytes; TLC re-parses them and decides.",
    note="hal VecZnx/ScalarZnx/MatZnx and core LWE/GLWE/GGLWE/GGSW (+compressed) covered; nested key types and bin-fhe keys pending. Debug-assertion (overflow-check) builds not yet run. Receiver capacity is taken from the allocation formula."),
+ "C13": dict(level="proof", design="§2 C13",
+   technique="TLA+ specs Bdd.tla (evaluator semantics, well-formedness) and WordOps.tla; tables extracted from the compiled crate (hook H1); TLC for structure + dictionary evaluation + binding of WordOps to plain Rust; Apalache (SMT) for all 2^64 inputs per (op, output bit)",
+   text="The 290 compiled bit circuits are read out of the built crate, checked structurally by TLC (reachable indices in range, no reachable undefined slot, last chunk [Cmux, None..], declared width covers every level), evaluated by TLC under the level-by-level selection semantics on a boundary dictionary x dictionary and seeded random pairs against WordOps.tla (itself bound to the plain Rust word operations on the same pairs), and for ALL 2^64 inputs one Apalache obligation per (operation, output bit) states circuit == word-operation bit. thorough discharges all 290; quick discharges every obligation whose table row is not in the committed proved-hash cache (i.e. any changed table) plus a seeded sample of 8.",
+   note="Trusted: Apalache+z3, TLC, the H1 extractor, tools/gen_bdd_tla.py (node / auxiliary-signal encoding; its spec recurrences mirror WordOps.tla). spec/BinFhe/proved.json is a regression cache written by a thorough run on this tree; it is keyed by table row + generator source so any table or generator change forces re-proof. The homomorphic realisation of Cmux is C04/C15."),
 }
 NA_REASON = "check not built yet in this round (planned in DESIGN.md §2); not claimed"
 
